@@ -149,7 +149,7 @@ def strategy_prefix(res, tier, rng, replay):
             for _ in range(3 if tier == 'quick' else 15):
                 o, regime = gen_ohlcv(rng, rng.randrange(14, 90))
                 cases.append((wname, [], [], o, regime))
-    lines, meta = [], []
+    lines, meta, reuse_meta = [], [], []
     for i, c in enumerate(cases):
         name, ns, fs, o, regime = c
         n = len(o['c'])
@@ -165,8 +165,31 @@ def strategy_prefix(res, tier, rng, replay):
             so = {k: o[k][:m] + o2[k][m:] for k in o}
             lines.append('f%d_s%d %s' % (i, j, cs.strat_line(name, ns, fs, so)))
             meta.append((i, j, m))
+            if j == 0:
+                # the same three runs on ONE instance, whole series first: what was seen in an earlier run is "later data" too
+                envs = [[x[k] for k in 'ohlcv'] for x in (o, po, so)]
+                lines.append('u%d REUSE STRAT %s %s %s seq %s' % (i, name, il(ns), fl(fs), '/'.join(streams(e) for e in envs)))
+                reuse_meta.append((i, m))
     go = vlib.run_go(lines)
     bad = 0
+    for (i, m) in reuse_meta:
+        g = go.get('u%d' % i, 'missing')
+        if not g.startswith('ok seq='):
+            continue
+        runs = [r.split(',') if r not in ('-', '_', '') else [] for r in g[len('ok seq='):].split(' conc=')[0].split('#')]
+        if len(runs) != 3:
+            continue
+        for which, r in (('run on the first m snapshots, on an instance that has already processed the whole series', runs[1]),
+                         ('snapshots rewritten from m on, on that same instance', runs[2])):
+            if r[:m] != runs[0][:m]:
+                bad += 1
+                if bad <= 8:
+                    k = next((t for t in range(m) if t >= len(r) or t >= len(runs[0]) or r[t] != runs[0][t]), 0)
+                    name, ns, fs, o, regime = cases[i]
+                    res.violation({'strategy_case': {'name': name, 'ns': ns, 'fs': fs, 'ohlcv': o}, 'cut': m, 'relation': which,
+                                   'first_difference': {'index': k, 'full_run': runs[0][k] if k < len(runs[0]) else None, 'derived_run': r[k] if k < len(r) else None},
+                                   'lines': [[l for l in lines if l.startswith('u%d ' % i)][0].split(' ', 1)[1]],
+                                   'oracle': 'the first m actions depend on the first m snapshots only (not on anything an earlier run has seen)'})
     for (i, j, m) in meta:
         full = go.get('f%d' % i, 'missing')
         if not full.startswith('ok'):
@@ -548,6 +571,12 @@ def check_c04(res, tier, replay):
     stats['bad'] += sb
     stats['evaluations'] += sr
     stats['strategy_runs'] = sr
+    if not replay:
+        # … nor on a configuration the instance had earlier: the warm-up and the window follow the current configuration
+        from c_runtime import check_reconf
+        rc_n, rc_bad = check_reconf(res, rng, tier, ('IND', 'STRAT'), 'C04', modes=('replace', 'inplace'))
+        stats['bad'] += rc_bad
+        stats['reconfigured_after_use'] = rc_n
     res.samples = stats['samples']
     res.coverage.update({
         'evaluations': stats['evaluations'], 'distinct_nontrivial': len(stats['cells']),
